@@ -119,6 +119,42 @@ def replay(p):
                 if nm in ("std_polar", "standard_complex", "trans_polar") and vm.complex_vars["c"] and after["cr"] < 0:
                     bad.append("negative radius after %s" % nm)
             return {"reproduced": bool(bad), "bad": bad}
+        if kind == "ties":
+            import tensorflow as tf
+            from tf_pwa.variable import VarsManager
+
+            names = ["a", "b", "c", "d", "e"]
+            vm = VarsManager(dtype=tf.float64)
+            for i, n in enumerate(names):
+                vm.add_real_var(n, value=float(i + 1))
+            parent = {n: n for n in names}
+
+            def find(x):
+                while parent[x] != x:
+                    x = parent[x]
+                return x
+
+            for x, y in p["seq"]:
+                vm.set_same([x, y])
+                parent[find(y)] = find(x)
+            bad = []
+            tv = list(vm.trainable_vars)
+            groups = {}
+            for n in names:
+                groups.setdefault(find(n), []).append(n)
+            if len(set(tv)) != len(tv) or any(sum(1 for n in g if n in tv) != 1 for g in groups.values()):
+                bad.append("free list %s for groups %s" % (tv, list(groups.values())))
+            for g in groups.values():
+                vals = [float(vm.variables[n].numpy()) for n in g]
+                if max(vals) - min(vals) > 0:
+                    bad.append("group %s reads %s" % (g, vals))
+            tgt = p["seq"][-1][1]
+            vm.set(tgt, 9.5)
+            for n in names:
+                v = float(vm.variables[n].numpy())
+                if find(n) == find(tgt) and v != 9.5:
+                    bad.append("%s tied to %s reads %s after set(%s, 9.5)" % (n, tgt, v, tgt))
+            return {"reproduced": bool(bad), "bad": bad[:6], "seq": p["seq"]}
         if kind == "std_range":
             import tensorflow as tf
             from tf_pwa.variable import VarsManager
